@@ -29,11 +29,24 @@ theorem tsym_bounds (sf : SpreadingFactor) (bw : Bandwidth) :
     64 ≤ tsym sf.factor bw.hz ∧ tsym sf.factor bw.hz ≤ 524455 := by
   cases sf <;> cases bw <;> decide
 
-private theorem div_ceil_spec (num d : Int)
+/-- The ceiling-division helper of `time_on_air_us`, by its SHAPE and not by its name: the
+translator emits a tactic `gen_unfold_helpers_<Unit>` that unfolds every helper it translated;
+it in place, and this lemma evaluates the unfolded body.  Moving or renaming the helper in the
+source therefore does not touch the proof. -/
+private theorem div_ceil_shape (num d : Int)
     (hd : d = 12 ∨ d = 16 ∨ d = 20 ∨ d = 24 ∨ d = 28 ∨ d = 32 ∨ d = 36 ∨ d = 40 ∨ d = 44 ∨ d = 48)
     (h1 : -3000 ≤ num) (h2 : num ≤ 3000) :
-    BaseBandModulationParams.time_on_air_us.div_ceil num d = some (ceilDiv num d) := by
-  unfold BaseBandModulationParams.time_on_air_us.div_ceil ceilDiv
+    (if decide (num > 0) then
+      (do
+        let t1 ← Rt.ck .i32 (num - 1)
+        let t2 ← Rt.divC .i32 t1 d
+        let t3 ← Rt.ck .i32 (t2 + 1)
+        pure t3)
+    else
+      (do
+        let t4 ← Rt.divC .i32 num d
+        pure t4) : Option Int) = some (ceilDiv num d) := by
+  unfold ceilDiv
   rcases hd with rfl|rfl|rfl|rfl|rfl|rfl|rfl|rfl|rfl|rfl <;>
   · split
     · rename_i hn; simp at hn
@@ -73,7 +86,8 @@ private theorem toa_common (sf : SpreadingFactor) (bw : Bandwidth) (cr : CodingR
   cases ldro <;> cases hdr <;>
   · simp only [if_true, if_false, Bool.false_eq_true, Bool.not_true, Bool.not_false]
     rt_simp
-    rw [div_ceil_spec _ _ (by omega) (by omega) (by omega)]
+    gen_unfold_helpers_Modulation
+    rw [div_ceil_shape _ _ (by omega) (by omega) (by omega)]
     generalize hqe : ceilDiv _ _ = q
     have hq : -3 ≤ q ∧ q ≤ 174 := by
       rw [← hqe]; exact ceilDiv_bounds _ _ (by omega) (by omega) (by omega)
